@@ -88,6 +88,10 @@ func (e *Engine) doCall(st *State, fr *Frame, dst *ssa.Call, cc *ssa.CallCommon,
 			}
 			return forks
 		}
+		if f.Noop {
+			setResult(st, nil)
+			return nil
+		}
 		if f.Fn == nil {
 			e.fail(st, "panic", "call of nil function")
 			return nil
@@ -112,7 +116,9 @@ func (e *Engine) doCall(st *State, fr *Frame, dst *ssa.Call, cc *ssa.CallCommon,
 		}
 	}
 	// content-demanding foreign code: fork an atom argument over its concrete candidates
-	if !strings.HasPrefix(fnPkgPath(fn), "github.com/cloudflare/pint") && !atomTolerant[fnKey(fn)] {
+	// (generic container code — slices, maps, cmp, sort — only compares its elements: atoms pass through; ordering
+	// comparisons on atoms are rejected where they happen)
+	if !strings.HasPrefix(fnPkgPath(fn), "github.com/cloudflare/pint") && !atomTolerant[fnKey(fn)] && !atomGeneric[fnPkgPath(fn)] && !strings.HasPrefix(fnPkgPath(fn), "log/slog") {
 		for ai, a := range args {
 			sv, ok := a.(StringVal)
 			if !ok || sv.Atom == nil {
@@ -268,6 +274,8 @@ func (e *Engine) opaqueOf(t types.Type) Value {
 	}
 	return zeroValue(t)
 }
+
+var atomGeneric = map[string]bool{"slices": true, "maps": true, "cmp": true, "sort": true}
 
 // foreign functions whose stubs handle atoms themselves
 var atomTolerant = map[string]bool{
@@ -465,7 +473,7 @@ func mergeValue(c *Term, a, b Value) (Value, bool) {
 		return IfaceVal{Type: x.Type, Val: m}, ok
 	case FuncVal:
 		y, ok := b.(FuncVal)
-		if !ok || x.Fn != y.Fn || x.Builtin != y.Builtin || len(x.Bindings) != len(y.Bindings) {
+		if !ok || x.Fn != y.Fn || x.Builtin != y.Builtin || x.Noop != y.Noop || len(x.Bindings) != len(y.Bindings) {
 			return nil, false
 		}
 		for i := range x.Bindings {
